@@ -135,22 +135,21 @@ class Resolver:
                                             int(m.group(5)))
                     if hdr is not None:
                         trait, ty = self._parse_impl_header(hdr)
-                self_ty = None
+                self_tys = []
                 ref_self = False
                 if ty is not None:
                     ref_self = ty.strip().startswith('&')
-                    self_ty = norm_type(ty)
+                    self_tys = [norm_type(ty)]
                 else:
-                    # macro-generated impl (bitflags) or derive: take Self from the signature
-                    cand = None
-                    if f.params:
-                        cand = norm_type(f.params[0][1])
-                    elif f.ret:
-                        cand = norm_type(f.ret)
-                    self_ty = cand
-                    if self_ty and '::' not in self_ty and module:
-                        pass
-                self.impl_defs.append((self_ty, trait, rest, name, module, ref_self))
+                    # macro-generated impl (bitflags) or derive: Self is the receiver type or the return type
+                    prim = ('u8', 'u16', 'u32', 'u64', 'usize', 'bool', 'str', '()', 'char', 'f64', 'isize', 'i32', 'i64')
+                    for cand in ([f.params[0][1]] if f.params else []) + ([f.ret] if f.ret else []):
+                        c = norm_type(cand)
+                        if c and c not in prim and c not in self_tys and not c.startswith(('{', '(', '[')):
+                            self_tys.append(c)
+                for self_ty in self_tys:
+                    self.impl_defs.append((self_ty, trait, rest, name, module, ref_self))
+                continue
             else:
                 self.plain_defs.append(('::'.join(strip_generics(s) for s in segs), name))
         # struct field names from aggregates
@@ -238,7 +237,8 @@ class Resolver:
             n = min(len(dq), len(qq))
             if n and dq[-n:] != qq[-n:]:
                 continue
-            out.append(name)
+            if name not in out:
+                out.append(name)
         return out
 
     def find_plain(self, path):
@@ -285,7 +285,10 @@ class Resolver:
                 if len(d) == 1:
                     return d[0]
             return None
-        segs = [strip_generics(s) for s in split_path(path)]
+        raw = split_path(path)
+        if any(x.startswith('<impl ') for x in raw) and path not in self.mir.functions:
+            return None      # inherent method of a foreign (std) type, e.g. core::char::methods::<impl char>::is_whitespace
+        segs = [strip_generics(s) for s in raw]
         segs = [s for s in segs if s]
         # promoted / closures hanging off a method: Type::method::promoted[0]
         for cut in range(len(segs) - 1, 0, -1):
